@@ -36,6 +36,12 @@ def run(rep, tier, seed):
         "(type='dyhpo', searcher='dyhpo', data of the wrapped GP searcher) is driven on the promotion-type schedules: its "
         "choice of whom to promote is not judged here (C04 does not cover it), only the data-set clauses",
     )
+    # known finding F19 at model level: with completions the strict clause ("... and no others") is violated by the
+    # transcription of on_trial_complete as well
+    r = A.run_mc(tables(tier)["stop_rungs_g2_completes"], ["ObsLevelsStrict"])
+    rep.extra.setdefault("model_level_finding_demos", []).append({"invariant": "ObsLevelsStrict", "violated": r.violated})
+    if r.violated:
+        rep.violation({"check": "mc-demo", "invariant": "ObsLevelsStrict"}, {})
     ht = [{"searcher": "hypertune"}]
     dy = [{"searcher": "dyhpo", "sched_type": "dyhpo"}]
     variants = {n: ht for n in ("stop_all", "stop_rungs_max", "stop_ral", "stop_2br_rungs", "stop_all_completes")}
